@@ -82,6 +82,22 @@ def _check(case):
             probs.append(('earlier-result-changed-by-a-later-call', '%s tau/theta %r -> %r' % (fam, before[1:], (float(c1.tau), float(c1.theta)))))
     except Exception as ex:
         probs.append(('raised-' + type(ex).__name__, 'second data set'))
+    # a work buffer: the same array object is selected on, reflected in place (second column -> 1 - second column: Kendall's tau
+    # changes sign) and selected on again - the answer is that of the data the array holds now
+    try:
+        Xr = X.copy()
+        Xr[:, 1] = 1.0 - Xr[:, 1]
+        fresh = select_copula(Xr.copy())
+        buf = X.copy()
+        select_copula(buf)
+        buf[:, 1] = 1.0 - buf[:, 1]
+        again = select_copula(buf)
+        if again.copula_type != fresh.copula_type or abs(float(again.tau) - float(fresh.tau)) > 1e-12 or \
+                not (float(again.theta) == float(fresh.theta) or abs(float(again.theta) - float(fresh.theta)) <= 1e-9 * max(1.0, abs(float(fresh.theta)))):
+            probs.append(('not-deterministic:array-overwritten-in-place', '%s tau %r theta %r instead of %s tau %r theta %r' %
+                          (again.copula_type.name, float(again.tau), float(again.theta), fresh.copula_type.name, float(fresh.tau), float(fresh.theta))))
+    except Exception as ex:
+        probs.append(('raised-' + type(ex).__name__, 'reflected data'))
     for name, c in zip(('second-call', 'permuted-rows', 'deprecated-alias'), others):
         if c.copula_type != c1.copula_type or not (float(c.theta) == th or abs(float(c.theta) - th) <= 1e-12 * max(1, abs(th))):
             probs.append(('not-deterministic:' + name, '%s/%r vs %s/%r' % (fam, th, c.copula_type.name, float(c.theta))))
